@@ -132,6 +132,20 @@ E('ifft[2,3]', algopy.fft.ifft, np.fft.ifft, [u((2, 3), 'any')], tags=('shape', 
 # ------------------------------------------------------------------ linear algebra
 for sa, sb in [((3,), (3,)), ((2, 3), (3,)), ((3,), (3, 2)), ((2, 3), (3, 2)), ((2, 2, 3), (3,)), ((2, 3), (2, 3, 2)), ((2, 2, 3), (3, 2)), ((3, 2, 3), (3, 2)), ((3, 1, 3), (3,))]:
     E('dot(U%s,U%s)' % (list(sa), list(sb)), algopy.dot, np.dot, [u(sa, 'any'), u(sb, 'any')], tags=('linalg',), atol=8)
+def _carr(shape, salt):
+    n = int(np.prod(shape, dtype=int))
+    return ((np.arange(n) * 5 + salt) % 11 - 5.0).reshape(shape) / 2.0
+
+
+# every rank pair once more with ONE plain-array operand (left and right), including shapes whose leading axes are equal
+for sa, sb in [((3,), (3,)), ((2, 3), (3,)), ((3,), (3, 2)), ((2, 3), (3, 2)), ((2, 2, 3), (3,)), ((2, 3), (2, 3, 2)), ((2, 2, 3), (3, 2)),
+               ((3,), (3, 3, 2)), ((2, 3), (3, 3, 2)), ((3,), (2, 3, 2)), ((2, 2, 3), (2, 3, 3)), ((3, 3, 3), (3, 3, 3))]:
+    E('dot(arr%s,U%s)' % (list(sa), list(sb)), (lambda y, sa=sa: algopy.dot(_carr(sa, 1), y)), (lambda y, sa=sa: np.dot(_carr(sa, 1), y)),
+      [u(sb, 'any')], tags=('linalg',), atol=8)
+    E('dot(U%s,arr%s)' % (list(sa), list(sb)), (lambda x, sb=sb: algopy.dot(x, _carr(sb, 2))), (lambda x, sb=sb: np.dot(x, _carr(sb, 2))),
+      [u(sa, 'any')], tags=('linalg',), atol=8)
+for sa, sb in [((3,), (3, 3, 2)), ((2, 3), (3, 3, 2)), ((2, 2, 3), (2, 3, 3)), ((3, 3, 3), (3, 3, 3))]:
+    E('dot(U%s,U%s)' % (list(sa), list(sb)), algopy.dot, np.dot, [u(sa, 'any'), u(sb, 'any')], tags=('linalg',), atol=8)
 _cm = np.array([[1.0, -2.0], [0.5, 1.5], [2.0, 0.25]])
 E('dot(U[2,3],arr[3,2])', lambda x: algopy.dot(x, _cm), lambda x: np.dot(x, _cm), [u((2, 3), 'any')], tags=('linalg',), atol=8)
 E('dot(arr[2,3],U[3,2])', lambda x: algopy.dot(_cm.T, x), lambda x: np.dot(_cm.T, x), [u((3, 2), 'any')], tags=('linalg',), atol=8)
